@@ -9,7 +9,9 @@ PROP = dict(
                  "emb_common": ("emb_common_run", "emb_common_eqb", "emb_in cstore * emb_out cstore"),
                  "emb_sentinel": ("emb_sentinel_run", "emb_sentinel_eqb", "emb_in2 nstore * emb_out nstore"),
                  "emb_pillar": ("emb_pillar_run", "emb_pillar_eqb", "emb_in2 lstore * emb_out lstore")}},
-    suites=[{"bin": "c10", "name": "locks", "n": {"quick": 16, "thorough": 1500}, "timeout": 3000}],
+    suites=[{"bin": "c10", "name": "locks", "n": {"quick": 16, "thorough": 1500}, "timeout": 3000},
+            {"bin": "c10", "name": "bridgeliq", "n": {"quick": 6, "thorough": 400}, "timeout": 3000},
+            {"bin": "c10", "name": "liqtreasury", "n": {"quick": 3, "thorough": 30}, "timeout": 3000}],
     rule="histories on a real node (htlc spork regime, lock windows shortened as in the repository's own tests): stake/cancel, fuse/cancel-fuse (incl. genesis fusions), htlc create/unlock/reclaim/deny/allow, QSR deposit/withdraw, sentinel register/revoke, pillar register/revoke, each release attempted by the owner and by others, before and after the lock, repeatedly, with right and wrong preimages, plus random (mostly failing) calls to the same contracts; time advances with momentums; "
          "a case is one receive of a modelled method: (contract tables, balances, frontier time/height, constants, send) -> (status/error, descendants, tables, balances); distinct by (function, input)",
     explanation="Theorems: for every queue of calls processed by generateEmbeddedReceive the stake, plasma, htlc, sentinel, pillar(partial) and QSR-deposit tables stay backed per token (liab <= balance, induction over the queue); success => guard for cancel-stake, cancel-fuse, htlc unlock/reclaim, pillar/sentinel revoke and withdraw-QSR; the revoke-window function of the model is the go2coq translation of PillarGetRevokeStatus/GetSentinelRevokeStatus and means (now-reg) mod (lock+revoke) >= lock; never-twice corollaries. "
